@@ -1,9 +1,11 @@
 """C40 -- each received data packet is reported good or bad exactly once.
 
 DUT: luna.gateware.usb.usb3.link.data.DataPacketReceiver (real class).
-Environment: lib/ss_link.SSPacketSource -- a SuperSpeed link partner sending header packets, each optionally
-followed by a data packet payload, fully symbolic data, symbolic corruption masks on CRC16/CRC5/CRC32, free invalid
-(gap) cycles at every position, free traffic between packets (which may itself start the next packet at once).
+Environment: lib/ss_link.SSScriptedSource -- a SuperSpeed link partner sending header packets, each optionally
+followed by a data packet payload: framing positions (payload length, positions of invalid cycles) are concrete per
+query, everything else is symbolic (header words, payload bytes, CRC32 corruption mask, header CRC masks in the
+bad-header framings, junk shown in invalid cycles, free traffic after the packets).  Concrete framing is what makes
+the CRC terms of environment and DUT coincide (a free-gap environment produced an intractable CRC32 miter).
 Oracle (from the statement, not from the DUT): a *data packet received* is a header packet of type DATA whose
 CRC16 and CRC5 are valid, followed by DPPSTART.  T = the cycle in which the word carrying the last CRC32 byte is
 valid on the sink.  Exactly one of packet_good/packet_bad must strobe, exactly once, in [T, T+1]; never anywhere
@@ -21,14 +23,15 @@ ASSUMPTIONS = [
     "partner stream is well framed: HPSTART, 3 data words, DW3, [DPPSTART, data_length payload bytes, CRC32 directly "
     "after the last byte, END END END EPF directly after the CRC, IDL fill]; no K symbols inside header/payload",
     "CRC fields = value computed by the repo's own CRC step functions (shared definition, C30) XOR a free mask",
-    "invalid (valid=0) cycles with free junk data may occur at every position; traffic between packets is free",
+    "invalid (valid=0) cycles with free junk data at scripted positions (thorough: every position); traffic after the "
+    "packets is free except that it contains no HPSTART",
     "data_length <= 1024 (spec maximum; the DUT's counter is sized for it)",
     "a 'data packet received' is a DATA-type header with valid CRC16/CRC5 followed by DPPSTART; for a header with "
     "a corrupted CRC the statement's 'good iff' is checked (never good, no payload output) but no 'bad' is demanded, "
     "because the receiver cannot know the packet is a data packet",
     "verdict window: the cycle the last CRC32 byte arrives, or the cycle after it (allows a registered report)",
 ]
-BOUNDS = "BMC from reset: quick K=18, thorough K=26 (free) / K=34 (gaps restricted to <=3); 1-3 packets per trace"
+BOUNDS = "BMC from reset, one query per scripted framing (K = script length + 3, 14..30): quick 9 framings (lengths 0,1,2,3,4,5,8; gap before CRC / in header / in payload / before DPPSTART; second packet; bad header; non-data header); thorough: every length 0..9 x one invalid cycle at every position, gaps everywhere, three packets back to back"
 OUTSIDE = "ill-framed payloads (K symbols inside the payload, missing END framing, DPPABORT/EDB endings); payloads " \
           "longer than the depth allows (~ (K-8)*4 bytes); a DATA header not followed by DPPSTART but directly by HPSTART"
 
@@ -192,11 +195,12 @@ def _cfgs(tier):
         ("len4_then_zlp", [P(4), P(0, idle=2)], ok + ["tracked_word", "second_verdict"]),
         ("len5_gap_in_payload", [P(5, gaps=[7], idle=2)], ok + ["tracked_word", "partial_word_out"]),
         ("len8_gap_before_dpp", [P(8, gaps=[5, 8], idle=2)], ok + ["tracked_word"]),
-        ("len7_gap_before_crc", [P(7, gaps=[8], idle=2)], ok + ["partial_word_out"]),
         ("hdrbad_len4_then_len1", [P(4, hdr="bad"), P(1, gaps=[6], idle=2)], ok + ["hdr_bad"]),
         ("notdata_len2_then_zlp", [P(2, hdr="notdata"), P(0, gaps=[6], idle=2)], ok + ["not_data"]),
-        ("hp_only_then_len4", [P(None), P(4, gaps=[6, 7], idle=2)], ok),
     ]
+    if tier == "thorough":
+        cf += [("len7_gap_before_crc", [P(7, gaps=[8], idle=2)], ok + ["partial_word_out"]),
+               ("hp_only_then_len4", [P(None), P(4, gaps=[6, 7], idle=2)], ok)]
     if tier == "thorough":
         # every length 0..9 x one invalid cycle at every position of the packet (incl. none)
         for L in range(10):
